@@ -218,8 +218,103 @@ let c15_line id sel root blocks ctl obs =
   let verdict = if model_obs = "compile:unsupported" then "skip" else c15_oracle (parse_ctl ctl) ctl obs in
   print_string id; print_char '\t'; print_string model_obs; print_char '\t'; print_endline verdict
 
+(* ======================================================================== C14 *)
+let gerr_name = function
+  | GNotExists -> "notexists" | GBadIndex -> "badindex" | GTerminal -> "terminal" | GLoad -> "load" | GFuel -> "fuel"
+
+let get_text g root p =
+  match get g root p with
+  | Ok v -> "ok " ^ string_of_dm v
+  | Err e -> "err " ^ gerr_name e
+
+let has_prefix s k = String.length s >= String.length k && String.sub s 0 (String.length k) = k
+
+(* is the hex string a an aligned substring of the hex string b *)
+let hex_substring a b =
+  let la = String.length a and lb = String.length b in
+  let rec go i = i + la <= lb && (String.sub b i la = a || go (i + 2)) in
+  go 0
+
+let is_slice_of visited got =
+  String.length visited >= 1 && String.length got >= 1 && visited.[0] = got.[0] &&
+  (visited.[0] = 's' || visited.[0] = 'b') &&
+  not (String.contains visited ' ') && not (String.contains got ' ') &&
+  hex_substring (String.sub visited 1 (String.length visited - 1)) (String.sub got 1 (String.length got - 1))
+
+let c14v_oracle (obs : string) : string =
+  if has_prefix obs "compile:" then "ok" else
+  let i = String.rindex obs '|' in
+  let body = String.sub obs 0 i in
+  let fails = ref [] in
+  let fail x = if not (List.mem x !fails) then fails := x :: !fails in
+  if body <> "" then
+    List.iter (fun v ->
+        match String.split_on_char ';' v with
+        | [_path; reason; visited; get; focus; step] ->
+          if visited <> "" && visited.[0] = 'l' then begin
+            (* the walk visited a link node: a block whose root is itself a link; Get follows it *)
+            if get <> "ok " ^ visited then fail "link_block_root_followed"
+          end else if not (has_prefix get "ok ") then fail "visit_unresolvable"
+          else begin
+            let got = String.sub get 3 (String.length get - 3) in
+            if visited <> got && not (reason = "m" && is_slice_of visited got) then fail "visit_differs"
+          end;
+          if focus <> "=" then fail "focus_differs";
+          if step <> "=" then fail "stepwise_differs"
+        | _ -> fail "malformed_obs")
+      (String.split_on_char ',' body);
+  if !fails = [] then "ok" else "fail:" ^ String.concat "," (List.rev !fails)
+
+let c14v_line id sel root blocks obs =
+  let model_obs =
+    match compile (dm_of_string sel) with
+    | CErr -> "compile:err"
+    | CUnsupported -> "compile:unsupported"
+    | COk s ->
+      let g = parse_blocks blocks and r = dm_of_string root in
+      let (evs, o) = walk_adv g fuel r s in
+      let vs = List.filter_map (fun e ->
+          match e with
+          | EVisit (p, nd, rs, _) ->
+            Some (segs_text p ^ ";" ^ (match rs with RMatch -> "m" | RCand -> "x") ^ ";" ^ string_of_dm nd ^ ";" ^
+                  get_text g r p ^ ";=;=")
+          | ELoad _ -> None) evs in
+      String.concat "," vs ^ "|" ^ class_of o in
+  let verdict = if model_obs = "compile:unsupported" then "skip" else c14v_oracle obs in
+  print_string id; print_char '\t'; print_string model_obs; print_char '\t'; print_endline verdict
+
+let c14p_line id root blocks path obs =
+  let g = parse_blocks blocks and r = dm_of_string root in
+  let model_obs = get_text g r (parse_segs path) ^ ";=;=" in
+  let verdict =
+    match String.split_on_char ';' obs with
+    | [_; focus; step] ->
+      let fails = (if step <> "=" then ["get_vs_stepwise"] else []) @ (if focus <> "=" then ["focus_differs"] else []) in
+      if fails = [] then "ok" else "fail:" ^ String.concat "," fails
+    | _ -> "fail:malformed_obs" in
+  print_string id; print_char '\t'; print_string model_obs; print_char '\t'; print_endline verdict
+
+let c14r_line id segs obs =
+  let p = parse_segs segs in
+  let str = format_path p in
+  let back = parse_path str in
+  let model_obs = hex_of_bytes str ^ ";" ^ segs_text back in
+  let strs = List.map (fun sg -> string_of_bytes (seg_string sg)) p in
+  let clean = List.for_all (fun x -> x <> "" && not (String.contains x '/')) strs in
+  let verdict =
+    match String.split_on_char ';' obs with
+    | [h; b] ->
+      let fails = (if clean && b <> segs then ["path_roundtrip"] else []) @
+                  (if h <> hex_of_bytes (bytes_of_string (String.concat "/" strs)) then ["path_format"] else []) in
+      if fails = [] then "ok" else "fail:" ^ String.concat "," fails
+    | _ -> "fail:malformed_obs" in
+  print_string id; print_char '\t'; print_string model_obs; print_char '\t'; print_endline verdict
+
 let () =
   iter_lines (fun line ->
       match split_tab line with
       | id :: "c15" :: sel :: root :: blocks :: ctl :: obs :: _ -> c15_line id sel root blocks ctl obs
+      | id :: "c14v" :: sel :: root :: blocks :: obs :: _ -> c14v_line id sel root blocks obs
+      | id :: "c14p" :: root :: blocks :: path :: obs :: _ -> c14p_line id root blocks path obs
+      | id :: "c14r" :: segs :: obs :: _ -> c14r_line id segs obs
       | _ -> ())
